@@ -69,9 +69,13 @@ Definition quantity_text (st : style) (thousands_ok : bool) (neg : bool) (N p zp
   (if neg then [45] else []) ++ ip' ++
   (match fp with [] => [] | _ => (if st_decimal_comma st then 44 else 46) :: fp end).
 
-Definition needs_quotes (sym : str) : bool :=
+(* commodity_t::symbol_needs_quotes: a character the scanner stops at, or a symbol that spells a reserved word *)
+Definition has_invalid_char (sym : str) : bool :=
   existsb (fun ch => match nth_error src_invalid_chars (Z.to_nat ch) with
                      | Some 1 => true | Some _ => false | None => true end) sym.
+
+Definition needs_quotes (sym : str) : bool :=
+  has_invalid_char sym || existsb (str_eqb sym) src_reserved_words.
 
 Definition symbol_text (sym : str) : str :=
   if needs_quotes sym then 34 :: sym ++ [34] else sym.
